@@ -23,7 +23,7 @@ RULE = (
     "most 4 s between timeout 0 and timeout 1 or 2 (measured twice before it counts); timed_out / footer warning <=> at least one "
     "chunk did not record completion; every reported dependency is a cycle of the untimed result with the same "
     "latency (where the untimed search finishes); port pressure totals and critical path equal the untimed run's; "
-    "no child process of the analysing process is alive 0.5 s after return; timeout -1 or finishing in time => "
+    "no child process of the analysing process is alive 0.5 s after return; timeout -1 or finishing in time => (compared with the single-process search of the same kernel) "
     "complete result, no warning. Non-trivial: a run in which the search was actually cut (>=1 chunk unfinished) "
     "and >=1 dependency was still reported, or a completion inside the last polling interval. Distinct = distinct "
     "(kernel, timeout, schedule)."
@@ -45,10 +45,12 @@ def dense_kernel(n):
 
 
 def ordinary_kernel(isa):
+    # label and comment lines are part of a kernel as compilers emit it; the last lines carry cycles of their own
     if isa == "x86":
-        return ["vaddpd %ymm1, %ymm2, %ymm2", "addq $8, %rax", "vmulpd %ymm2, %ymm3, %ymm3", "cmpq %rax, %rbx",
-                "vfmadd231pd %ymm4, %ymm5, %ymm6", "subq $1, %rcx"]
-    return ["fadd d1, d2, d2", "add x3, x3, #8", "fmul d2, d3, d3", "subs x4, x4, #1", "fmadd d5, d6, d7, d5"]
+        return [".L3:", "vaddpd %ymm1, %ymm2, %ymm2", "addq $8, %rax", "# body", "vmulpd %ymm2, %ymm3, %ymm3",
+                "cmpq %rax, %rbx", "vfmadd231pd %ymm4, %ymm5, %ymm6", "subq $1, %rcx"]
+    return [".L3:", "fadd d1, d2, d2", "add x3, x3, #8", "// body", "fmul d2, d3, d3", "subs x4, x4, #1",
+            "fmadd d5, d6, d7, d5"]
 
 
 _M = {}
@@ -79,7 +81,7 @@ def run_scheduled(case):
     delays = {str(1 + a): d for (a, b), d in zip(ch, case["delays"])}
     cls = sched.make_class(delays=delays, record_dir=rec)
     try:
-        with sched.Patched(ncpu=case["ncpu"], threshold=1):
+        with sched.Patched(ncpu=case["ncpu"], threshold=10 ** 9 if case.get("sequential") else 1):
             t0 = time.time()
             dg = guard(cls, kernel, parser, mm, sem, timeout=case["timeout"], what="KernelDG(timeout=%s)" % case["timeout"])
             wall = time.time() - t0
@@ -110,7 +112,8 @@ def untimed(case):
         if case.get("explosive"):
             _UNTIMED[key] = None
         else:
-            c = dict(case, timeout=-1, delays=[0.0] * len(case["delays"]))
+            # reference: the single-process search of the same kernel (complete by construction)
+            c = dict(case, timeout=-1, delays=[0.0] * len(case["delays"]), sequential=True)
             _UNTIMED[key] = run_scheduled(c)
     return _UNTIMED[key]
 
